@@ -268,19 +268,36 @@ func runC09(c *core.Ctx) {
 	sp := so.NewSP("meta-one-signing", fx.K("sp_rsa2048"))
 	spIDP := so.NewSP("meta-one-signing", fx.K("sp_rsa2048"))
 	spIDP.AllowIDPInitiated = true
+	type namedSP struct {
+		name string
+		sp   *saml.ServiceProvider
+	}
+	var trustSPs []namedSP
+	for _, t := range so.Trusts[1:] {
+		trustSPs = append(trustSPs, namedSP{t.Name, so.NewSP(t.Name, fx.K("sp_rsa2048"))})
+	}
 	cur := mustURL(so.SPACS)
 	idx := 0
 	mine := func() bool { idx++; return c.Mine(idx) }
 
 	deliver := func(entryMask int, desc string, raw []byte) {
 		// entryMask bit0 xml, bit1 post, bit2 artifact-xml
-		for _, s := range []*saml.ServiceProvider{sp, spIDP} {
+		// one more SP per delivery, drawn from the other trust configurations (pinned certificate, fingerprints, two
+		// roots, use omitted): they reach certificate handling code the metadata configuration never runs
+		extra := trustSPs[c.Rng.Intn(len(trustSPs))]
+		for _, s := range []*saml.ServiceProvider{sp, spIDP, extra.sp} {
 			tag := ""
 			if s == spIDP {
 				if c.Rng.Intn(3) != 0 {
 					continue
 				}
 				tag = "+idpinit"
+			}
+			if s == extra.sp {
+				if c.Rng.Intn(2) != 0 {
+					continue
+				}
+				tag = "+trust=" + extra.name
 			}
 			if entryMask&1 != 0 {
 				var a *saml.Assertion
@@ -461,6 +478,93 @@ func runC09(c *core.Ctx) {
 				}
 			}
 			deliver(1|4, fmt.Sprintf("encrypted-degenerate#%d signed=%v", i, signed), so.Bytes(r))
+		}
+	}
+	// ---- dictionary sweeps: every hostile string in the positions that certificate- and reference-handling code reads
+	dict := mut.Dictionary()
+	s1b64 := fx.K("idp_s1").CertB64()
+	dict = append(dict, "-----BEGIN CERTIFICATE-----\n"+s1b64+"\n-----END CERTIFICATE-----", "-----BEGIN CERTIFICATE-----\n"+s1b64, s1b64+"\n-----END CERTIFICATE-----",
+		"-----BEGIN CERTIFICATE-----"+s1b64[:40], s1b64[:len(s1b64)/2], s1b64+s1b64, fx.K("idp_ec").CertB64(), fx.K("att_x").CertB64())
+	allSPs := append([]namedSP{{"meta-one-signing", sp}}, trustSPs...)
+	deliverAll := func(desc string, raw []byte) {
+		for _, ns := range allSPs {
+			var a *saml.Assertion
+			var err error
+			d := desc + "+trust=" + ns.name
+			if c09Call(c, "ParseXMLResponse", d, raw, func() { a, err = ns.sp.ParseXMLResponse(raw, []string{"req-1"}, cur) }) {
+				c09Contract(c, "ParseXMLResponse", d, raw, a, err)
+			}
+		}
+	}
+	// (a) the certificate text inside the signature's KeyInfo, under every trust configuration (pinned and fingerprint
+	// configurations parse it with their own code)
+	for layout := 0; layout < 2; layout++ {
+		o.Reset()
+		base, err := c09BuildResponse(o, 0, layout, false, true, 1)
+		if err != nil {
+			continue
+		}
+		for di, d := range dict {
+			if !mine() {
+				continue
+			}
+			el, perr := so.Parse(base)
+			if perr != nil {
+				break
+			}
+			for _, x := range el.FindElements("//X509Certificate") {
+				x.SetText(d)
+			}
+			deliverAll(fmt.Sprintf("dict-x509certificate layout=%d #%d %s", layout, di, truncate(d, 30)), so.Bytes(el))
+		}
+	}
+	// (b) encrypted assertions in the layout some IdPs use: the EncryptedKey next to the EncryptedData, referenced from
+	// its KeyInfo by a RetrievalMethod; identifiers and references from the dictionary
+	for di, d := range dict {
+		for variant := 0; variant < 5; variant++ {
+			if !mine() {
+				continue
+			}
+			o.Reset()
+			base, err := c09BuildResponse(o, 0, 1, true, true, 1)
+			if err != nil {
+				continue
+			}
+			el, perr := so.Parse(base)
+			if perr != nil {
+				continue
+			}
+			ea := el.FindElement("./EncryptedAssertion")
+			ek := el.FindElement("./EncryptedAssertion/EncryptedData/KeyInfo/EncryptedKey")
+			ki := el.FindElement("./EncryptedAssertion/EncryptedData/KeyInfo")
+			if ea == nil || ek == nil || ki == nil {
+				c.Inconclusive("encrypted base has no EncryptedData/KeyInfo/EncryptedKey")
+				break
+			}
+			ki.RemoveChild(ek)
+			ek.CreateAttr("Id", d)
+			rm := ki.CreateElement("ds:RetrievalMethod")
+			rm.CreateAttr("Type", "http://www.w3.org/2001/04/xmlenc#EncryptedKey")
+			switch variant {
+			case 0:
+				rm.CreateAttr("URI", "#"+d)
+			case 1:
+				rm.CreateAttr("URI", d)
+			case 2:
+				rm.CreateAttr("URI", "#"+d)
+				other := ek.Copy() // a second key for another recipient, listed first
+				other.CreateAttr("Id", "_other-recipient")
+				if cv := other.FindElement("./CipherData/CipherValue"); cv != nil {
+					cv.SetText("AAAA")
+				}
+				ea.AddChild(other)
+			case 3:
+				rm.CreateAttr("URI", "#_nothing-has-this-id")
+			case 4:
+				// no URI at all
+			}
+			ea.AddChild(ek)
+			deliver(1, fmt.Sprintf("dict-retrievalmethod variant=%d #%d %s", variant, di, truncate(d, 30)), so.Bytes(el))
 		}
 	}
 	// base64 framings on the POST entry point
